@@ -25,7 +25,7 @@ from simcore.sched import SimPool, install_locks, install_pools
 from simcore.faultenum import run_op
 from simcore.world import MUTATING, FaultPlan, O, SimWorld, restore, snapshot
 
-FILES = ["f1", "f2", "x.log", "sub/g", "sub/x.log", "sub/deep/h"]
+FILES = ["f1", "f2", "x.log", "sub/g", "sub/x.log", "sub/deep/h", ".hid", "sub/.hid"]
 T0 = 1_000_000_000_000  # ms
 
 
